@@ -125,7 +125,7 @@ def w_basic(ctx, rng, i):
     def rnd():
         a = rng.normal(0, 1, shape) * sc
         return a if which == "lpf" else a + 1j * rng.normal(0, 1, shape) * sc
-    x, y = rnd(), rnd()
+    x, y = core.degenerate_rows(rng, rnd(), every=4), rnd()      # e.g. the same field in both polarisations with independent noise in each
     a_, b_ = float(rng.normal(0, 2)), float(rng.normal(0, 2))
     ctx.describe(which=which, order=order, cut_over_fs=cut / fs, fs=fs, n=n, n_pol=n_pol, noise=noise)
     with core.quiet():
